@@ -176,6 +176,10 @@ def run(ctx):
             r2.undecidable("from", "cannot enumerate paths: %s" % e)
     disp = [k for k, f in prog.fns.items() if (f.get("impl") or {}).get("trait") == "std::fmt::Display"
             and "LayoutModifiers" in (f.get("impl") or {}).get("self", "")]
+    if not disp:
+        # no Display impl: the plane's name is written by a private name function of the enum (`as_str(&self) -> &'static str`)
+        disp = [k for k, f in prog.fns.items() if "LayoutModifiers" in ((f.get("impl") or {}).get("self") or "") and not (f.get("impl") or {}).get("trait")
+                and len(f.get("inputs") or []) == 1 and "LayoutModifiers" in f["inputs"][0] and re.fullmatch(r"&(?:'\w+ )?str", f.get("output") or "")]
     if len(disp) != 1:
         r2.undecidable("display", "Display for the plane enum not found uniquely")
     else:
@@ -212,6 +216,9 @@ def run(ctx):
                                 lits.append("".join(x[1] if x[0] == "lit" else "{}" for x in fp))
                             elif is_const(e, "str"):
                                 lits.append(const_val(e))
+                rv_ = strip_refs(env.get(0)) if env.get(0) is not None else None
+                if rv_ is not None and is_const(rv_, "str"):
+                    lits.append(const_val(rv_))         # a name function answers with the name itself
                 if vsel:
                     seen_v.setdefault(vsel, []).extend(lits)
             for vn in vnames:
@@ -241,7 +248,7 @@ def run(ctx):
                         if x[0] == "val":
                             xv = peel_conv(x[1])
                             if xv.k == "call" and xv.a[0] in prog.fns and len(xv.a[1]) == 1 and "LayoutModifiers" in ((prog.fns[xv.a[0]].get("impl") or {}).get("self") or "") \
-                                    and xv.a[0] in (_roles4.ib(prog, disp[0]).fn.get("inlined") or []) if len(disp) == 1 else False:
+                                    and (xv.a[0] == disp[0] or xv.a[0] in (_roles4.ib(prog, disp[0]).fn.get("inlined") or [])) if len(disp) == 1 else False:
                                 fp2.append(("val", peel_conv(xv.a[1][0])))
                                 continue
                         fp2.append(x)
@@ -375,6 +382,8 @@ def run(ctx):
         e = ret
         if e.k == "call" and e.a[0].endswith("::cloned"):
             e = e.a[1][0]
+        elif _lent(e) is not None:
+            e = _lent(e)            # the kept entry lent as &str (`.map(String::as_str)`): the same text, not copied yet
         if not (e.k == "call" and "Option" in e.a[0] and e.a[0].endswith("::filter")):
             verdict = _explicit_filter(prog, helper, is_np, next(iter(numpad_encs)) if (is_np and len(numpad_encs) == 1) else None)
             if verdict is True:
@@ -385,6 +394,8 @@ def run(ctx):
                 r3.violation(key, verdict, common.fn_line(prog, helper))
             continue
         recv = strip_refs(e.a[1][0])
+        if _lent(recv) is not None:
+            recv = strip_refs(_lent(recv))      # lent before it is filtered: the predicate sees the same text
         if not (recv.k == "call" and recv.a[0].endswith("::get") and "HashMap" in recv.a[0] and self_path(recv.a[1][0]) is not None and len(self_path(recv.a[1][0])) == 1):
             r3.violation(key, "the filtered value is %s, not one look-up of the requested entry in the layout map — an empty or missing assignment can be replaced by "
                          "another entry's value" % (recv.a[0].split("::")[-1] + "(…)" if recv.k == "call" else repr(recv)[:80]), common.fn_line(prog, helper))
@@ -404,7 +415,7 @@ def run(ctx):
         cb = prog.body(ck)
 
         def is_empty_atom(x, pred_param=pred_param):
-            return x.k == "call" and x.a[0].endswith("String::is_empty") and strip_refs(x.a[1][0]).k in ("arg",) and strip_refs(x.a[1][0]).a[0] == pred_param
+            return x.k == "call" and x.a[0].endswith(("String::is_empty", "str>::is_empty", "impl str>::is_empty")) and strip_refs(x.a[1][0]).k in ("arg",) and strip_refs(x.a[1][0]).a[0] == pred_param
 
         def upvar_atom(x):
             r, f = apath(x)
@@ -557,6 +568,16 @@ def run(ctx):
     else:
         common.verbatim_loads(r6, prog, parse[0], lay, [fl["name"] for fl in prog.struct_fields(lay)], "key map")
     r6.floor(1, "the key map")
+
+
+def _lent(e):
+    """`x.map(String::as_str)` (or deref / as_ref): x, the same Option with its text lent instead of owned; else None."""
+    if e.k == "call" and "Option" in e.a[0] and e.a[0].endswith("::map") and len(e.a[1]) == 2:
+        f = strip_refs(e.a[1][1])
+        if f.k == "const" and isinstance(f.a[0], tuple) and f.a[0][0] == "fn" and str(f.a[0][1]).endswith(
+                ("String::as_str", "String as std::ops::Deref>::deref", "String as std::convert::AsRef<str>>::as_ref")):
+            return e.a[1][0]
+    return None
 
 
 def _explicit_filter(prog, helper, is_np, enc=None):
